@@ -902,6 +902,20 @@ class Interp:
                         self.store(q2, lv, nv)
                         out.append((q2, nv))
                 return out
+            if name in ('operator|', 'operator&') and len(args) == 2:
+                # flag enumerations with overloaded bit operators (std::ios_base::openmode)
+                out = []
+                for q, vals in self.eval_args(args, p):
+                    a_, b_ = vals
+                    if isinstance(a_, Ref) and isinstance(b_, Ref) and a_.what == b_.what and a_.what in ('global', 'param') and name == 'operator|':
+                        # named flag constants: the set of names; std::ios::binary has no effect on POSIX hosts and is dropped
+                        names = sorted(set(str(a_.data).split('|') + str(b_.data).split('|')) - {'binary'})
+                        out.append((q, Ref(a_.what, '|'.join(names)) if names else Ref(a_.what, 'binary')))
+                        continue
+                    if not (isinstance(a_, V) and isinstance(b_, V)):
+                        raise AnalysisBroken('unsupported operands of %s at %s' % (name, pos(n)))
+                    out.append((q, bitop('or' if name == 'operator|' else 'and', a_, b_)))
+                return out
             raise AnalysisBroken('unsupported operator call %s at %s' % (name, pos(n)))
         if kind == 'method':
             o = strip_noncast(obj) if obj else None
